@@ -3,7 +3,7 @@
 # writes <outdir>/shuttle.json (C14 only) and <outdir>/miri.json; exit 0 / 1 (VIOLATION) / 2 (harness error)
 set -u
 prop="$1"; tier="$2"; out="$3"
-V=/verif
+V="${VERIF_ROOT:-/verif}"
 SIM=$V/sim/target/release/sim
 seed="${VERIF_SEED:-20260927}"
 rc=0
@@ -11,7 +11,7 @@ if [ "$prop" = C14 ]; then
     $SIM threads --tier $tier --seed $seed --evidence $out/shuttle.json --out $V/replays
     r=$?; [ $r -gt $rc ] && rc=$r
     # auxiliary static probe (auto-trait matrix) for the compile-time clause; not simulation
-    $SIM aux --evidence $out/aux.json --replays $V/replays
+    $SIM aux --evidence $out/aux.json --replays $V/replays --known $V/KNOWN_FINDINGS.txt
     r=$?; [ $r -gt $rc ] && rc=$r
 fi
 # ---- Miri: real threads under Miri's seeded scheduler with data-race + aliasing detection
